@@ -4,7 +4,7 @@ from harness.oracles import all as ALL
 
 ID = 'C07'
 UNITS = ['event_metrics', 'note_matching', 'transcription_scores', 'melody_metrics', 'multipitch_metrics', 'tempo_detection', 'alignment_scores', 'beat_q', 'match_events', 'melody_resample']
-TRANSLATORS = ['vecfuncs', 'wrapfuncs', 'beatfuncs']
+TRANSLATORS = ['vecfuncs', 'wrapfuncs', 'beatfuncs', 'notefuncs']
 NOT_COVERED = 'all listed nested pairs are theorems.'
 ASSUMPTIONS = ['exact-arithmetic lattices for the correspondence (DESIGN.md section 2.1); NumPy/SciPy primitives as modelled per module']
 
